@@ -188,6 +188,8 @@ def main(argv=None):
     vac = [r for r in covers if r["status"] == "cover-unsat"]
     for v in vac:
         engine_errors.append((v["name"], "vacuous: path hypotheses are unsatisfiable"))
+    if not obligations and not a.only:
+        engine_errors.append(("vacuity", "no obligation was generated"))
 
     import shutil
     shutil.rmtree(os.path.join(ROOT, "replays", pid), ignore_errors=True)
